@@ -24,8 +24,10 @@
    Not modelled: IPv6 routes, tunnel addresses of nodes (IPIP / VXLAN / Wireguard refs), remote
    workload endpoints (routeSource WorkloadIPs), NAT-outgoing (held constant by the driver).
 
-   [fixed] selects the variant of the re-flagging walk: false = the pinned code (an absent IPv4 subnet
-   is the zero value 0.0.0.0/0 and "contains" every address), true = with fixes/C43-*.patch applied. *)
+   [fixed] selects the tree: false = the originally pinned code (in the re-flagging walk an absent IPv4 subnet
+   is the zero value 0.0.0.0/0 and "contains" every address; a changed block route does not re-flag the routes
+   it contains), true = the current tree (b294575 = fixes/C43-*.patch and aac8598 =
+   fixes/C01-block-update-reflags-contained-routes.patch). *)
 From Coq Require Import List NArith Arith Bool.
 From Verif.Common Require Import Prefix.
 Import ListNotations.
@@ -290,7 +292,13 @@ Definition routes_from_block (c : prefix) (b : blockv) : list nroute :=
   | None => allocs
   end.
 
-Definition on_block (s : st) (c : prefix) (v : option blockv) : st :=
+(* RouteTrie.UpdateBlockRoute / RemoveBlockRoute.  With aac8598 (fixed = true) a changed block route that is
+   not a single address re-flags the routes it contains (markBlockChildrenDirty). *)
+Definition block_upd (fixed : bool) (s : st) (c : prefix) (b : option N) : st :=
+  let '(s1, ch) := update_cidr s c (fun ri => with_block ri b) in
+  if fixed && ch && negb (Nat.eqb (plen c) 32) then mark_children s1 c else s1.
+
+Definition on_block (fixed : bool) (s : st) (c : prefix) (v : option blockv) : st :=
   match v with
   | Some b =>
       let new := routes_from_block c b in
@@ -299,11 +307,11 @@ Definition on_block (s : st) (c : prefix) (v : option blockv) : st :=
       let dels := filter (fun r => negb (existsb (nroute_eqb r) new)) cached in
       let adds := filter (fun r => negb (existsb (nroute_eqb r) keep)) new in
       let s := set_cache s (aset prefix_eqb (s_cache s) c (keep ++ adds)) in
-      let s := fold_left (fun s r => nr_remove (fst (update_cidr s (snd r) (fun ri => with_block ri None))) r) dels s in
-      fold_left (fun s r => nr_add (fst (update_cidr s (snd r) (fun ri => with_block ri (Some (fst r))))) r) adds s
+      let s := fold_left (fun s r => nr_remove (block_upd fixed s (snd r) None) r) dels s in
+      fold_left (fun s r => nr_add (block_upd fixed s (snd r) (Some (fst r))) r) adds s
   | None =>
       let cached := match aget prefix_eqb (s_cache s) c with Some l => l | None => [] end in
-      let s := fold_left (fun s r => fst (update_cidr s (snd r) (fun ri => with_block ri None))) cached s in
+      let s := fold_left (fun s r => block_upd fixed s (snd r) None) cached s in
       set_cache s (aremove prefix_eqb (s_cache s) c)
   end.
 
@@ -376,7 +384,7 @@ Definition on_wep (s : st) (id : N) (cs : list prefix) : st :=
 Definition apply_op (fixed : bool) (s : st) (o : op) : st :=
   flush (match o with
          | OpPool c v => on_pool s c v
-         | OpBlock c v => on_block s c v
+         | OpBlock c v => on_block fixed s c v
          | OpNode n v => on_node fixed s n v
          | OpWep id cs => on_wep s id cs
          end).
